@@ -552,6 +552,7 @@ class LineSched(pipeline.Stream):
         self.J = jsonrpclib
         self._seq = {}
         self.exhausted = {}
+        self.problems = []
 
     def _mk(self, own, ver, dkind, kinds, prefix):
         return {"own": own, "ver": ver, "jsonclass": True, "dkind": dkind, "kinds": list(kinds),
@@ -564,8 +565,14 @@ class LineSched(pipeline.Stream):
         if tier == "thorough":
             pairs += [("failing-1.0", "call-2.0"), ("bad-arity-1.0", "unknown-1.0"), ("fault-2.0", "fault-1.0"), ("call-2.0", "call-2.0")]
         cases = []
+        hung = False
         for pi, ks in enumerate(pairs):
             for (own, ver) in ([(True, 2.0), (False, 2.0)] if pi < 2 or tier == "thorough" else [(True, 2.0)]):
+                if hung:
+                    # a handler thread blocked for real under some interleaving (a lock the code now takes): that run is
+                    # judged (it did not finish); going on would wait out one time-out per interleaving
+                    self.exhausted["%s | %s | %s v%s" % (ks[0], ks[1], "own" if own else "DEFAULT", ver)] = "not explored (an earlier run hung)"
+                    continue
                 # depth-first enumeration of every interleaving (the run is deterministic given the choices)
                 stack, seen = [[]], 0
                 while stack:
@@ -580,13 +587,18 @@ class LineSched(pipeline.Stream):
                         n, k = ch[pos]
                         for alt in range(k + 1, n):
                             stack.append([x[1] for x in ch[:pos]] + [alt])
+                    if o["status"] == "hang":
+                        hung = True
+                        self.problems.append("a handler thread blocked outside the line scheduler's control under interleaving %r of (%s, %s): "
+                                             "the code takes a real lock; the interleavings are NOT explored" % (prefix, ks[0], ks[1]))
+                        break
                     if seen >= 1500:
                         # (a changed function may have more yield points than foreseen: the enumeration of this
                         # pair is then budget-limited, which the evidence says; what was explored is still judged)
                         break
                 self.exhausted["%s | %s | %s v%s" % (ks[0], ks[1], "own" if own else "DEFAULT", ver)] = (
                     seen if not stack else "budget-limited after %d" % seen)
-        for _ in range(60 if tier == "quick" else 1500):
+        for _ in range(0 if hung else (60 if tier == "quick" else 1500)):
             own, ver = rng.choice(CONFIGS)
             ks = [rng.choice(SINGLE_KINDS) for _ in range(3)]
             if not any(k.endswith("1.0") for k in ks):
@@ -629,7 +641,8 @@ class LineSched(pipeline.Stream):
         try:
             rt = K.Runtime(_dcase(case), config=sc.server)
             try:
-                ctl = SC.Controller(policy=PrefixPolicy(case["prefix"]), fire="quiescent", line_hook=hook, max_steps=400, op_yield=False)
+                ctl = SC.Controller(policy=PrefixPolicy(case["prefix"]), fire="quiescent", line_hook=hook, max_steps=400, op_yield=False,
+                                    hang_timeout=10.0)
                 ctl.trace_files.add(SRV.__file__)
                 n = len(case["bodies"])
                 res = [None] * n
@@ -667,6 +680,10 @@ class LineSched(pipeline.Stream):
         return o
 
     def oracle(self, case, obs):
+        if obs["status"] == "hang":
+            # a handler thread blocked for real while the scheduler held another one at a yield point (the code takes a lock
+            # the line scheduler does not control): an artefact of the exploration, not a statement about the code
+            return None
         if obs["status"] != "done" or obs["errors"]:
             return ("C13:sched-run-did-not-finish", "status %s, errors %s" % (obs["status"], obs["errors"]))
         own_form = "2.0" if case["ver"] >= 2 else "1.0"
@@ -742,5 +759,45 @@ class LineSched(pipeline.Stream):
         return list(self.gen("quick", rng))
 
 
+from harness.props import c04 as C04      # noqa: E402
+
+
+class Overlap(C04.Overlap):
+    """a request served while another request's method is still running on the same dispatcher (gate inside the method; no
+    scheduler involved, so locks the code may take are harmless): the form of each reply depends only on its own request, and no
+    Config is written.  Each of the two is one Model/Dispatch.v case on its own (C04's `overlap` stream under C13's clauses)."""
+    PREFIX = "C13"
+
+    def run_impl(self, case):
+        import jsonrpclib.config as C
+        snap = lambda c: (c.version, c.use_jsonclass, c.content_type, c.serialize_method, c.ignore_attribute,     # noqa
+                          dict(c.classes), len(c.serialize_handlers))
+        before = snap(C.DEFAULT)
+        obs = C04.Overlap.run_impl(self, case)
+        obs["default_changed"] = snap(C.DEFAULT) != before
+        return obs
+
+    def oracle(self, case, obs):
+        bad = C04.Overlap.oracle(self, case, obs)
+        if bad is not None:
+            return bad
+        own = "2.0" if case["ver"] >= 2 else "1.0"
+        for who, i in (("slow", 0), ("fast", 1)):
+            body = json.loads(obs["bodies"][i])
+            entries = body if isinstance(body, list) else [body]
+            answered = [e for e in entries if not ("id" not in e or e["id"] in (None, ""))]
+            text = obs[who][1]
+            got = [] if not text else json.loads(text)
+            got = got if isinstance(got, list) else [got]
+            for g, e in zip(got, answered):
+                exp = own if "jsonrpc" in e else "1.0"
+                if CS.form_of(g) != exp:
+                    return ("C13:reply-form", "%s request %r answered in form %s (expected %s) while the other request %r was in progress: %r" % (
+                        who, e, CS.form_of(g), exp, json.loads(obs["bodies"][1 - i]), g))
+        if obs.get("default_changed"):
+            return ("C13:default-config-changed", "config.DEFAULT differs after two overlapping requests")
+        return None
+
+
 def streams():
-    return [History(), ConfigOps(), Threads(), LineSched()]
+    return [History(), ConfigOps(), Threads(), LineSched(), Overlap()]
